@@ -31,6 +31,27 @@ func (c *notCond) string() string {
 	if strings.HasPrefix(next, "(") {
 		return fmt.Sprintf("not %s", c.notC.string())
 	}
-	splitted := strings.Split(next, " ")
-	return strings.Join(append([]string{splitted[0], "not"}, splitted[1:]...), " ")
+	// Insert "not" after the key, which is quoted if it holds separators.
+	keyEnd := endOfFirstToken(next)
+	return next[:keyEnd] + " not" + next[keyEnd:]
+}
+
+// endOfFirstToken returns the length of the first token of a printed
+// condition, honoring quoting and escaping as done by escapeString.
+func endOfFirstToken(text string) int {
+	if strings.HasPrefix(text, "\"") {
+		for i := 1; i < len(text); i++ {
+			switch text[i] {
+			case '\\':
+				i++ // skip escaped character
+			case '"':
+				return i + 1
+			}
+		}
+		return len(text)
+	}
+	if i := strings.Index(text, " "); i >= 0 {
+		return i
+	}
+	return len(text)
 }
